@@ -279,19 +279,25 @@ def transform (r : Rule P α) (T : P → P') (absdet : α) : Rule P' α :=
 and `MosaicReference.getpoints`) -/
 def concat (rs : List (Rule P α)) : Rule P α := rs.flatten
 
-/-- `ConcatPoints.masks`: point `j` of part `i` is dropped when it is listed in some group after the first position -/
-def dupMasked (dups : List (List (Nat × Nat))) (i j : Nat) : Bool := dups.any fun grp => grp.tail.contains (i, j)
+/-- all (part, point) positions of `allpoints`, in concatenation order -/
+def positions (rs : List (Rule P α)) : List (Nat × Nat) :=
+  rs.zipIdx.flatMap fun ri => (List.range ri.1.length).map fun j => (ri.2, j)
 
-def weightOf (rs : List (Rule P α)) (ij : Nat × Nat) : α := (((rs.getD ij.1 []).map (·.2))[ij.2]?).getD 0
+def entryAt (rs : List (Rule P α)) (ij : Nat × Nat) : Option (P × α) := (rs[ij.1]?).bind (·[ij.2]?)
+
+/-- `ConcatPoints.masks`: point `j` of part `i` is dropped when it is listed in some group after the first position -/
+def dupMasked (dups : List (List (Nat × Nat))) (ij : Nat × Nat) : Bool := dups.any fun grp => grp.tail.contains ij
+
+def weightOf (rs : List (Rule P α)) (ij : Nat × Nat) : α := ((entryAt rs ij).map (·.2)).getD 0
 
 /-- `ConcatPoints.weights`: the first point of a group receives the weights of the dropped ones -/
-def dupExtra (rs : List (Rule P α)) (dups : List (List (Nat × Nat))) (i j : Nat) : α :=
-  (dups.map fun grp => if grp.head? = some (i, j) then (grp.tail.map (weightOf rs)).sum else 0).sum
+def dupExtra (rs : List (Rule P α)) (dups : List (List (Nat × Nat))) (ij : Nat × Nat) : α :=
+  (dups.map fun grp => if grp.head? = some ij then (grp.tail.map (weightOf rs)).sum else 0).sum
 
 /-- `ConcatPoints(allpoints, duplicates)` (bezier scheme): masked points dropped, weights merged -/
 def concatDedup (rs : List (Rule P α)) (dups : List (List (Nat × Nat))) : Rule P α :=
-  (rs.zipIdx.map fun ri => (ri.1.zipIdx.filterMap fun pwj =>
-      if dupMasked dups ri.2 pwj.2 then none else some (pwj.1.1, pwj.1.2 + dupExtra rs dups ri.2 pwj.2))).flatten
+  (positions rs).filterMap fun ij =>
+    if dupMasked dups ij then none else (entryAt rs ij).map fun pw => (pw.1, pw.2 + dupExtra rs dups ij)
 
 end Quadrature
 
